@@ -166,7 +166,11 @@ def _container_slots(mods):
         for name, val in list(vars(mod).items()):
             if name.startswith("__"):
                 continue
-            if isinstance(val, kinds) or callable(getattr(val, "cache_info", None)):
+            try:
+                is_cache = callable(getattr(val, "cache_info", None))
+            except Exception:  # pylint: disable=broad-except
+                is_cache = False  # a stand-in object that refuses unknown attributes
+            if isinstance(val, kinds) or is_cache:
                 slots.append((mod, name))
             elif isinstance(val, type) and getattr(val, "__module__", None) == mod.__name__:
                 for cname, cval in list(vars(val).items()):
@@ -207,10 +211,11 @@ def process_state_fingerprint(slots):
 
 
 def state_change_points(fn, prefixes, mods, max_lines=2_000_000):
-    """Run fn() in a forked child under a line tracer and return the (1-based) indices of
-    the executed library lines after which the process-wide state fingerprint differed from
-    before: the places where an interruption would leave that state half updated.  The
-    parent's state is untouched."""
+    """Run fn() in a forked child under a line tracer and return, for the executed library
+    lines after which the process-wide state fingerprint differed from before, the pairs
+    (1-based index of the next line, (file, line number) of the line that changed the state):
+    the places where an interruption would leave that state half updated.  The parent's
+    state is untouched."""
     import os  # pylint: disable=import-outside-toplevel
     import pickle  # pylint: disable=import-outside-toplevel
     import sys  # pylint: disable=import-outside-toplevel
@@ -226,13 +231,17 @@ def state_change_points(fn, prefixes, mods, max_lines=2_000_000):
             last = [process_state_fingerprint(slots)]
             changes = []
 
-            def local(_frame, event, _arg):
+            prev = [None]
+
+            def local(frame, event, _arg):
                 if event == "line":
                     count[0] += 1
                     fp = process_state_fingerprint(slots)
                     if fp != last[0]:
                         last[0] = fp
-                        changes.append(count[0])  # the line executed just before changed the state
+                        # the line executed just before changed the state: remember which one
+                        changes.append((count[0], prev[0]))
+                    prev[0] = (frame.f_code.co_filename, frame.f_lineno)
                     if count[0] > max_lines:
                         raise SimInterrupt()
                 return local
@@ -274,7 +283,19 @@ def guided_interrupt_at(fn, prefixes, pick):
     changes, _total = state_change_points(fn, prefixes, permuta_modules())
     if not changes:
         return None
-    return changes[min(len(changes) - 1, int(pick * len(changes)))] + 1
+    # first a state-changing *site* (source line), then one of its occurrences: a loop that
+    # fills a small table once must not drown in the thousands of state changes of a busy memo
+    sites = []
+    by_site = {}
+    for idx, site in changes:
+        if site not in by_site:
+            by_site[site] = []
+            sites.append(site)
+        by_site[site].append(idx)
+    x = pick * len(sites)
+    k = min(len(sites) - 1, int(x))
+    occ = by_site[sites[k]]
+    return occ[min(len(occ) - 1, int((x - k) * len(occ)))] + 1
 
 
 def snapshot_process_state(mods):
